@@ -32,17 +32,8 @@ CaseOf(e) == [kind |-> e.kind, fw |-> e.fw, file |-> e.file, env |-> e.env, cli 
 
 TInit == s = S0(CHOOSE c \in Cases : TRUE) /\ tid \in 1..NT /\ l = 1 /\ verdict = "ok" /\ cv = "ok" /\ cstep = 0
 
-(* the documented rule, independent of Dev: most authoritative naming of the file, then rank *)
-PChosen(c) == IF "cli" \in c.files THEN "cli" ELSE IF "env" \in c.files THEN "env"
-              ELSE IF "cwd" \in c.files THEN "cwd" ELSE "none"
-PMent(c, src) == IF src = "fw" THEN c.fw
-                 ELSE IF src = "file" THEN (IF PChosen(c) = "none" THEN "no" ELSE c.file)
-                 ELSE IF src = "env" THEN c.env ELSE c.cli
-RECURSIVE PTopFrom(_, _)
-PTopFrom(c, i) == IF i > Len(Rank) THEN "none"
-                  ELSE IF PMent(c, Rank[i]) # "no" THEN Rank[i] ELSE PTopFrom(c, i + 1)
-PTop(c) == PTopFrom(c, 1)
-PAnyBad(c) == \E i \in 1..4 : PMent(c, Srcs[i]) = "bad"
+PTop(c) == Top(c)
+PAnyBad(c) == AnyBad(c)
 
 PVerdict(e) ==
   LET c == CaseOf(e)
